@@ -14,7 +14,7 @@ import (
 func init() {
 	Register(&PropDef{
 		ID: "C14", QuickRuns: 4800, Level: "exploration",
-		Rule: "one run = 1-3 sessions on the BESS datapath (end markers enabled or disabled) and 4-20 Session Modifications that update FARs: tunnel changes to another gNB / TEID, send-end-marker flag on or off, unknown FAR ids, two FARs in one message, updates of FARs that had no tunnel before, creations. Oracle at the end-marker unix socket: packets decoded in the harness (Ethernet/IPv4/UDP/GTPv1-U): exactly one End Marker per flagged FAR whose update was accepted, addressed to the tunnel the FAR had before the update (peer address, TEID), UDP ports 2152, source = N3 address, and written after the simulated BESS acknowledged the new FAR; none otherwise. Non-trivial = at least one end marker expected and >20 task switches; distinct = different sequence of (update kind, flag, expected markers).",
+		Rule: "one run = 1-3 sessions on the BESS datapath (end markers enabled or disabled) and 4-20 Session Modifications that update FARs: tunnel changes to another gNB / TEID, send-end-marker flag on or off, unknown FAR ids, two FARs in one message, updates of FARs that had no tunnel before, creations. Oracle at the end-marker unix socket: packets decoded in the harness (Ethernet/IPv4/UDP/GTPv1-U): exactly one End Marker per flagged FAR whose update was accepted, addressed to the tunnel the FAR had before the update (peer address, TEID), UDP ports 2152, source = N3 address, and written after the simulated BESS acknowledged the new FAR; none otherwise. One run in four plays hand-overs on the P4Runtime datapath, where end markers leave as PacketOut messages on the stream channel, also after the switch restarted its P4Runtime server (streams break, the channel reads IDLE, the agent sets up a new channel with the next request): exactly one well-formed marker to the old tunnel must reach a live stream. Non-trivial = at least one end marker expected and >20 task switches; distinct = different sequence of (update kind, flag, expected markers).",
 		Assume: []string{"the order between the end-marker write and the FAR command is judged by a global stamp taken when the simulated daemon applies the command and when the socket write happens"},
 		Real: CommonReal, Simulated: CommonSim,
 		Scenario: scenarioC14,
@@ -40,6 +40,10 @@ func decodeEndMarker(b []byte) (src, dst net.IP, sport, dport uint16, teid uint3
 }
 
 func scenarioC14(r *Run) {
+	if r.Ch.Choose(4, "datapath") == 1 {
+		scenarioC14UP4(r)
+		return
+	}
 	r.Conf = DefaultBESSConf()
 	enabled := r.Ch.Choose(4, "em-enabled") != 1
 	r.Conf.EnableEndMarker = enabled
@@ -196,6 +200,98 @@ func scenarioC14(r *Run) {
 	}
 	if checked > 0 {
 		r.Probe("modifications-judged")
+	}
+	r.CheckNoPanics("C14")
+}
+
+
+// scenarioC14UP4: end markers on the P4Runtime datapath leave as PacketOut
+// messages on the stream channel. Hand-overs with and without the flag, also
+// after the switch (or the connection to it) was restarted and the agent has
+// set up a new channel: exactly one marker per flagged FAR, to the old tunnel,
+// on a stream that is alive.
+func scenarioC14UP4(r *Run) {
+	r.DrawUP4Conf()
+	enabled := r.Ch.Choose(4, "em-enabled") != 1
+	r.Conf.EnableEndMarker = enabled
+	r.DrawStrategy()
+	sw := r.W.P4
+	p := r.AddPeer()
+	r.StartAgent()
+	if !r.WaitUP4Ready() || p.AssociateRetry() == nil {
+		r.CheckNoPanics("C14")
+		return
+	}
+	g := NewGen(r)
+	g.PlainQER = true
+	g.UP4 = true
+	var sessions []*CPSession
+	for i := 0; i < 1+r.Ch.Choose(2, "nsess"); i++ {
+		s := g.Session(p, SessShape{NQER: r.Ch.Choose(2, "nq"), TEIDChoose: r.Ch.Choose(2, "choose") == 1})
+		*s.FAR(2) = FARSpec{ID: 2, Action: ActFORW, DstIface: IfAccess, HasFwd: true, HasOHC: true, TEID: s.FAR(2).TEID | 0x100, PeerIP: g.gnbs[r.Ch.Choose(len(g.gnbs), "gnb0")]}
+		if res := p.Establish(s); res.Accepted {
+			sessions = append(sessions, s)
+			r.Accepted++
+		}
+	}
+	if len(sessions) == 0 {
+		return
+	}
+	r.Skel(fmt.Sprintf("up4 em=%v", enabled))
+	restarts := 0
+	checked := 0
+	for k := 0; k < 3+r.Ch.Choose(8, "nmods") && r.AgentAlive() && len(r.Violations) == 0; k++ {
+		if restarts < 2 && r.Ch.Choose(4, "switch-restart") == 1 {
+			restarts++
+			sw.Restart(true) // streams break, tables survive
+			r.Fault("p4-stream-broken-by-switch-restart")
+			r.Skel("switch-restart")
+			r.Op("the switch restarts its P4Runtime server (tables kept): the stream channel breaks")
+			r.Sim.RunFor(time.Duration(10+r.Ch.Choose(3000, "after-restart-ms")) * time.Millisecond)
+		}
+		s := sessions[r.Ch.Choose(len(sessions), "sess")]
+		old := s.FAR(2)
+		g.nextTEID++
+		nf := &FARSpec{ID: 2, Action: ActFORW, DstIface: IfAccess, HasFwd: true, HasOHC: true, TEID: g.nextTEID, PeerIP: g.gnbs[r.Ch.Choose(len(g.gnbs), "gnb")]}
+		nf.EndMarker = r.Ch.Choose(3, "sndem") != 1
+		before := len(sw.PacketOuts)
+		res := p.Modify(s, &ModSpec{Tag: "uF:handover", UpdateFAR: []*FARSpec{nf}})
+		r.Op("hand-over of cp=%d: FAR 2 %v/%d -> %v/%d flag=%v -> accepted=%v", s.CPSEID, old.PeerIP, old.TEID, nf.PeerIP, nf.TEID, nf.EndMarker, res.Accepted)
+		r.Skel(fmt.Sprintf("ho flag=%v acc=%v", nf.EndMarker, res.Accepted))
+		r.Sim.RunFor(20 * time.Millisecond)
+		pkts := sw.PacketOuts[before:]
+		if !res.Accepted {
+			if len(pkts) > 0 {
+				r.Violate("C14", "marker-for-failed-update:up4", "the modification was rejected but %d end marker(s) left as PacketOut", len(pkts))
+			}
+			continue
+		}
+		r.Accepted++
+		want := 0
+		if nf.EndMarker && enabled && old.HasOHC {
+			want = 1
+		}
+		checked++
+		if len(pkts) != want {
+			r.Violate("C14", fmt.Sprintf("marker-count:up4:want=%d:got=%d:after-restart=%v", want, min(len(pkts), 3), restarts > 0), "hand-over of cp=%d (flag=%v, end markers enabled=%v, %d switch restart(s) before): %d end marker(s) expected, %d PacketOut message(s) reached a live stream", s.CPSEID, nf.EndMarker, enabled, restarts, want, len(pkts))
+			continue
+		}
+		for _, pk := range pkts {
+			src, dst, sp, dp, teid, mt, ok := decodeEndMarker(pk.Data)
+			if !ok {
+				r.Violate("C14", "undecodable-marker:up4", "PacketOut payload does not decode as Ethernet/IPv4/UDP/GTPv1-U")
+				break
+			}
+			if mt != 254 || sp != 2152 || dp != 2152 || !src.Equal(ip4(N3Addr)) {
+				r.Violate("C14", "malformed-marker:up4", "end marker: GTP-U type %d, ports %d -> %d, source %v (N3 address %s)", mt, sp, dp, src, N3Addr)
+			}
+			if !dst.Equal(old.PeerIP) || teid != old.TEID {
+				r.Violate("C14", "marker-to-wrong-tunnel:up4", "end marker addressed to %v TEID %d; the FAR's old tunnel was %v TEID %d", dst, teid, old.PeerIP, old.TEID)
+			}
+		}
+	}
+	if checked > 0 {
+		r.Probe("up4-hand-overs-judged")
 	}
 	r.CheckNoPanics("C14")
 }
